@@ -10,6 +10,30 @@ def run(ctx):
     else:
         txncommon.run(ctx, 200, "drop,gen,close,gen,drop", par=4, passes=3)
     secs1(ctx)
+    parked(ctx)
+
+
+def parked(ctx):
+    """fire-and-forget sends parked on a full send queue (socket stalled by a write gate) when their generation ends by a peer
+    reset or by Close: each completes promptly with the connection-closed error, none is flushed into the next generation"""
+    obs = os.path.join(ctx.tmp, "parked.ndjson")
+    ctx.run_vh(["parked", "--out", obs, "--reps", 3 if ctx.quick else 12], timeout=900)
+    res = common.oracle_pass(ctx, obs, "OracleGauge", nchunks=1, timeout=600)
+    faults, groups = 0, {}
+    for (ln, text, why) in res["rejections"]:
+        d = json.loads(text)
+        if why == "HarnessFault":
+            faults += 1
+            continue
+        g = groups.setdefault("c09:parked:%s:%s" % (why, d["how"]), dict(n=0, first=d))
+        g["n"] += 1
+    for sig, g in sorted(groups.items()):
+        ctx.violation("sends parked on a full queue when their generation ended (%s), %d scenario(s): %s" % (sig, g["n"], common.short(g["first"], 500)),
+                      dict(binding="B2 scripted peer + write gate + OracleGauge WhyParked", signature=sig, occurrences=g["n"], observation=g["first"]))
+    if faults > res["lines"] // 2:
+        raise common.Inconclusive("parked-send scenarios could not be set up (%d of %d)" % (faults, res["lines"]))
+    ctx.cov["parked_send_scenarios"] = res["lines"] - faults
+    ctx.cov["traces_validated_against_impl"] = ctx.cov.get("traces_validated_against_impl", 0) + res["lines"] - faults
 
 
 def secs1(ctx):
